@@ -202,7 +202,75 @@ func (c *Chain) onEpochBoundary(ended common.Epoch) {
 		}
 		c.lastNextSync = r
 	}
+	c.proposerSensitivity(st, flats, ended, cur)
 	c.noteState(st)
+}
+
+// proposerSensitivity: would the proposers of the new epoch be different if they were sampled with the effective balances
+// from BEFORE this epoch transition? (They must be sampled with the new ones.)
+func (c *Chain) proposerSensitivity(st common.BeaconState, flats []common.FlatValidator, ended, cur common.Epoch) {
+	old := c.prevEff
+	c.prevEff = make([]common.Gwei, len(flats))
+	for i := range flats {
+		c.prevEff[i] = flats[i].EffectiveBalance
+	}
+	if old == nil || cur != ended+1 {
+		return
+	}
+	inc := c.Spec.EFFECTIVE_BALANCE_INCREMENT
+	big := 0
+	changed := false
+	for i := range flats {
+		if i >= len(old) || !flats[i].IsActive(cur) {
+			continue
+		}
+		o, n := old[i], flats[i].EffectiveBalance
+		if o != n {
+			changed = true
+		}
+		if o >= n+8*inc || n >= o+8*inc {
+			big++
+		}
+	}
+	if big > 0 {
+		c.Stats.Inc("epochs_active_effbal_changed_8_increments")
+		c.Stats.Max("max_active_validators_effbal_changed_8_increments", big)
+	}
+	if !changed || c.Epc == nil || c.Epc.CurrentEpoch == nil || c.Epc.Proposers == nil {
+		return
+	}
+	defer func() { recover() }()
+	cp := CopyState(st)
+	vals, err := cp.Validators()
+	if err != nil {
+		return
+	}
+	for i := range flats {
+		if i < len(old) && old[i] != flats[i].EffectiveBalance {
+			v, err := vals.Validator(common.ValidatorIndex(i))
+			if err != nil {
+				return
+			}
+			if err := v.SetEffectiveBalance(old[i]); err != nil {
+				return
+			}
+		}
+	}
+	with, err := common.ComputeProposers(c.Spec, cp, cur, c.Epc.CurrentEpoch.ActiveIndices)
+	if err != nil {
+		return
+	}
+	now, err := common.ComputeProposers(c.Spec, st, cur, c.Epc.CurrentEpoch.ActiveIndices)
+	if err != nil {
+		return
+	}
+	for i := range now.Proposers {
+		if now.Proposers[i] != with.Proposers[i] {
+			c.Stats.Inc("epochs_proposers_sensitive_to_effbal_change")
+			c.Stats.Inc("epochs_proposers_sensitive_to_effbal_change_" + StateFork(st).String())
+			return
+		}
+	}
 }
 
 func (c *Chain) forkAtEpoch(e common.Epoch) ForkID {
